@@ -10,7 +10,7 @@ NOTE = ('Real-arithmetic semantics of the float64 jaxpr traced from /repo (const
 
 CHECKS = {
   'C01': dict(category='other', technique='symbolic execution of the traced jaxpr (sparse affine/polynomial normal forms) + QF_LRA queries (z3, cvc5 cross-check); mpmath analytic-basis oracle',
-              text='Bounded symbolic verification: round trip, mask exactness, integral identity, orthonormality and agreement with the analytic basis are decided for ALL spectral fields in [-1,1]^n on each enumerated grid (both implementations, 3 spacings, padding options, leading axes).',
+              text='Bounded symbolic verification: round trip, mask exactness, integral identity, orthonormality and agreement with the analytic basis are decided for ALL spectral fields in [-1,1]^n on each enumerated grid (both implementations, 3 spacings incl. grids whose truncation sits exactly at the resolution limit, padding options, leading axes); mask and wavenumber tables tied to the documented triangular truncation.',
               design='§3 C01'),
   'C02': dict(category='other', technique='symbolic execution of the traced jaxpr + QF_LRA queries; mpmath analytic-derivative oracle',
               text='Bounded symbolic verification: every spectral operator (d_dlon, cos_lat_d_dlat, sec_lat_d_dlat_cos2, grad, div, curl, Laplacian, inverse, clipping, wind conversions) is compared for ALL fields in the box with analytic derivatives of the basis, the eigenvalue specification, vector identities and round trips, on each enumerated grid.',
@@ -21,50 +21,50 @@ CHECKS = {
   'C04': dict(category='other', technique='symbolic execution of the traced jaxpr (polynomial normal forms, reciprocal atoms reduced modulo their relations) + QF_LRA monomial-abstraction queries, NRA/replay on sat',
               text='Metamorphic polynomial identity decided for ALL admissible states: explicit+implicit tendency of the same physical atmosphere under two reference-temperature profiles agree (dry, with-time, moist, cloud classes; orography; tracers; even/uneven levels; non-monotone profiles).',
               design='§3 C04'),
-  'C05': dict(category='other', technique='symbolic execution of the traced jaxpr on balanced families with symbolic parameters + QF_LRA monomial-abstraction queries',
-              text='Analytically balanced families have identically zero total tendency for ALL parameter values in the box: isothermal rest over arbitrary orography (every retained coefficient symbolic, T0 concrete and symbolic), solid-body rotation in gradient-wind balance (U, per-level temperatures, humidity, ln ps), geostrophic shallow-water jets (jet coefficients, 1-2 layers); moist(q=0)=dry for all states.',
+  'C05': dict(category='other', technique='symbolic execution of the traced jaxpr on balanced families with symbolic parameters and against independent weak-form reference models + QF_LRA monomial-abstraction queries',
+              text='Analytically balanced families have identically zero total tendency for ALL parameter values in the box: isothermal rest over arbitrary orography (every retained coefficient symbolic, T0 concrete and symbolic), solid-body rotation in gradient-wind balance (U, per-level temperatures, humidity, ln ps), geostrophic shallow-water jets (jet coefficients, 1-2 layers); moist(q=0)=dry for all states; total tendency of the dry primitive equations AND of the layered shallow-water equations equals an independent weak-form evaluation of the continuous equations (mpmath basis tables, numpy Gauss weights, unsplit documented vertical scheme / physical layer coupling) for all alias-free states.',
               design='§3 C05'),
-  'C06': dict(category='other', technique='power-series execution of the traced step functions (time step symbolic) + QF_LRA queries on Taylor coefficients; QF_NRA queries on the amplification factor; CrossHair for list-length validation',
-              text='Order conditions decided for ALL ODE coefficients (cubic scalar and tree-separating non-autonomous problem), reductions to parent explicit/implicit schemes, |R(z)|<=1 on the imaginary axis for all schemes and on the closed half plane where decided, leapfrog theta-method reduction and stability for several alpha, coefficient-length validation.',
+  'C06': dict(category='other', technique='power-series execution of the traced step functions (time step symbolic) + QF_LRA queries on Taylor coefficients; QF_NRA queries on the amplification factor; QF_UFNRA equivalence of the generic drivers with symbolic tableaux and uninterpreted operators; CrossHair for list-length validation',
+              text='Order conditions decided for ALL ODE coefficients (cubic scalar and tree-separating non-autonomous problem), reductions to parent explicit/implicit schemes, |R(z)|<=1 on the imaginary axis for all schemes and on the closed half plane where decided, leapfrog theta-method reduction and stability for several alpha, coefficient-length validation; the two generic drivers (imex_runge_kutta, low_storage_runge_kutta_crank_nicolson) equal their textbook definitions for SYMBOLIC coefficients (8 tableau zero patterns, 1-3(5) low-storage stages) and uninterpreted F, G, G^-1.',
               design='§3 C06'),
   'C09': dict(category='translation_validation', technique='symbolic execution of both implementations on the same symbolic inputs + QF_LRA equivalence queries',
               text='Translation validation of RealSphericalHarmonics vs FastSphericalHarmonics under the fixed re-indexing for every Grid operation and each option combination (padding multiple, stacked transforms, einsum order), for ALL inputs in the box; model tendencies compared as polynomial identities.',
               design='§3 C09'),
   'C10': dict(category='other', technique='symbolic execution of the traced jaxpr (polynomial normal forms, matched atoms) + QF_LRA monomial-abstraction queries',
-              text='Equivariance decided as polynomial identities for ALL admissible states: tendency(T x) = T tendency(x) and one Euler/leapfrog step, T = rotation by grid steps (several k) or equatorial mirror (vorticity pseudo-scalar), dry/moist primitive equations and shallow water, both transform classes.',
+              text='Equivariance decided as polynomial identities for ALL admissible states: tendency(T x) = T tendency(x), one Euler/leapfrog step, and 2-3 frame shallow-water trajectories built by the library trajectory builder (leapfrog + filters), T = rotation by grid steps (several k) or equatorial mirror (vorticity pseudo-scalar), dry/moist primitive equations and shallow water, both transform classes.',
               design='§3 C10'),
   'C11': dict(category='other', technique='one inductive step decided symbolically: jaxpr interpretation on arbitrary states / stand-in operators returning fresh symbols + exact (eps=0) and QF_LRA queries; DCE of the clock output',
-              text='Each structural invariant is shown inductive from an ARBITRARY invariant-satisfying state: explicit tendencies vanish exactly outside the truncation/top wavenumber with zero vorticity/divergence mean; implicit terms and solve preserve the subspace; every integrator keeps the complement at 0 and advances the clock by dt; direct filtered Euler/leapfrog steps; shallow-water mean thickness.',
+              text='Each structural invariant is shown inductive from an ARBITRARY invariant-satisfying state: explicit tendencies vanish exactly outside the truncation/top wavenumber with zero vorticity/divergence mean; implicit terms and solve preserve the subspace; every integrator keeps the complement at 0 and advances the clock by dt; every shipped filter with its options returns the (0,0) entries exactly; direct filtered Euler/leapfrog steps; shallow-water mean thickness, also along 2-frame trajectories of the library trajectory builder.',
               design='§3 C11'),
   'C12': dict(category='other', technique='symbolic execution of the traced jaxpr under two Scale objects + QF_LRA monomial-abstraction queries',
-              text='The same SI problem built under two unit scales (default, atmospheric, SI, odd, seeded decades) gives SI-equal tendencies and Euler step for ALL states in the box: dry and moist primitive equations, shallow water.',
+              text='The same SI problem built under two unit scales (default, atmospheric, SI, odd, seeded decades, and the default scale with exactly one base unit changed) gives SI-equal tendencies and Euler step for ALL states in the box: dry and moist primitive equations, Held-Suarez forcing, shallow water incl. 2-frame trajectories.',
               design='§3 C12'),
   'C14': dict(category='other', technique='symbolic execution of the traced combinators with uninterpreted step/filter/scan functions (z3 EUF terms) + QF_UF/QF_UFNRA equivalence queries, including reverse-mode gradient IRs',
-              text='trajectory_from_step, repeated, step_with_filters, nested_checkpoint_scan (carries, non-scalar stacked outputs and gradients), accumulate_repeated and DFI are equal to their sequential definitions for EVERY step/filter function and all data, for each enumerated split / ordered factorisation.',
+              text='trajectory_from_step, repeated, step_with_filters, nested_checkpoint_scan (carries, non-scalar stacked outputs, gradients, explicit length, identity checkpoint, no scanned inputs), accumulate_repeated and digital-filter initialisation (= defining sum with independently computed Lanczos weights, evaluated twice) are equal to their sequential definitions for EVERY step/filter function and all data, for each enumerated split / ordered factorisation.',
               design='§3 C14'),
   'C15': dict(category='other', technique='symbolic execution of the traced filter factories with symbolic strength parameters (z3 terms, exp uninterpreted) + QF_NRA queries on the exp-arguments; polynomial identities for application and Robert-Asselin',
-              text='For ALL positive attenuation/scale/dt/tau: factors depend only on total wavenumber, equal 1 for the mean, lie in (0,1], are non-increasing, compose over half steps and follow the documented top-mode law (orders 1..18, cutoffs, both layouts, padded grids); application to pytrees is an elementwise product on spectral leaves and the identity on others; array strengths act slice-wise; Robert-Asselin identities for all r.',
+              text='For ALL positive attenuation/scale/dt/tau: factors depend only on total wavenumber, equal 1 for the mean, lie in (0,1], are non-increasing, compose over half steps and follow the documented top-mode law (orders 1..18, cutoffs, both layouts, padded grids); application to pytrees is an elementwise product on spectral leaves and the identity on others; array strengths (incl. exact-zero / infinite-tau entries) act slice-wise for all six factories; Robert-Asselin identities for all r.',
               design='§3 C15'),
   'C16': dict(category='other', technique='symbolic execution of the traced regridding code with symbolic grid bounds / surface pressure / fields (z3 terms with ite, sin uninterpreted) + QF_LRA / QF_NRA queries with cut-point abstraction; affine normal forms for concrete grid pairs',
-              text='Vertical: overlap lemmas for ALL strictly increasing source/target bounds (<= 6x5 cells), weights in [0,1] with unit row sums, hybrid-to-sigma regridding for ALL surface pressures in [400,1100] and fields (constants, convex combination, low-top models). Horizontal: latitude overlap identities for ALL increasing centres (<= 4x3), concrete grid pairs with ALL fields symbolic (constants, range, area integral), documented NaN rules on enumerated missing patterns.',
+              text='Vertical: overlap lemmas for ALL strictly increasing source/target bounds (<= 6x5 cells), weights in [0,1] with unit row sums, hybrid-to-sigma regridding for ALL surface pressures in [400,1100] and fields (constants, convex combination, thickness-weighted integral over the covered range against an independent specification of the hybrid layers, low-top models). Horizontal: latitude overlap identities for ALL increasing centres (<= 4x3), symbolic longitude centres, concrete grid pairs with ALL fields symbolic (constants, range, area integral), documented NaN rules on enumerated missing patterns.',
               design='§3 C16'),
   'C17': dict(category='other', technique='symbolic execution of the traced interpolation routines (scan-based searchsorted, clamped dynamic_slice/gather, masks) to z3 terms with symbolic query point, data (and nodes for n<=3) + QF_LRA atom specialisation + QF_NRA queries',
               text='For ALL query points and data (concrete uneven node sets up to 6 nodes; symbolic nodes for n<=3): value at nodes, agreement with the reference piecewise-linear interpolant, neighbour bounds, exactness on affine data, documented extrapolation (constant / unlimited linear / n cells then missing), equality of the two interp code paths, sigma<->pressure on affine columns for all surface pressures, surface-pressure equation, column-wise wrappers; bilinear/nearest regridding constants and identity.',
               design='§3 C17'),
   'C20': dict(category='other', technique='symbolic execution of the traced forcing code to z3 terms (sin/cos/exp uninterpreted with instantiated axioms, floor via to_int) + QF_UFNRA/QF_NRA/QF_LIRA queries with lemma decomposition and cut points; real numpy code on symbolic duck arrays; polynomial identities with atoms',
-              text='Radiation: for ALL phases, positions and solar constants: |sin altitude|<=1, irradiance bounds, 0 <= flux <= S+dS, flux = 0 iff sun not above horizon, normalised flux in [0,1], 2pi-periodicity in both phases; orbital phases in [0,2pi) and congruent to elapsed time. Held-Suarez: friction/relaxation rates for ALL sigma levels and parameters (non-negative, zero above the boundary layer), linear drag law, temperature relaxation affine in T and independent of wind, no surface-pressure tendency, equilibrium floor.',
+              text='Radiation: for ALL phases, positions and solar constants: |sin altitude|<=1, irradiance bounds, 0 <= flux <= S+dS, flux = 0 iff sun not above horizon, normalised flux in [0,1], 2pi-periodicity in both phases; orbital phases in [0,2pi) and congruent to elapsed time; SolarRadiation (class level): node coordinates equal the grid specification (offsets, both layouts) and radiation_flux(t) equals the unit function at those nodes for every t. Held-Suarez: friction/relaxation rates for ALL sigma levels and parameters (non-negative, zero above the boundary layer), linear drag law, temperature relaxation affine in T and independent of wind, no surface-pressure tendency, equilibrium floor.',
               design='§3 C20'),
   'C18': dict(category='other', technique='symbolic scalars (z3 Real; Float64 bit-vector term + rounding-error-model term) executed through the real scales.py / pint / xarray_utils code, numpy integer cast captured; QF_NRA, QF_BVFP (z3 then cvc5) and QF_LIRA queries',
               text='Scale laws (inverse, unit independence, products/quotients/powers) for ALL magnitudes and ALL positive base scales; whole-second durations and minute-resolution datetimes through the real conversion code decided bit-precisely on a bounded range (both signs) and by the rounding-error model up to 2^26 minutes; orbital phases from symbolic day-of-year/hour/minute.',
               design='§3 C18'),
   'C19': dict(category='exploration', technique='element-id symbolic execution of the traced tree utilities / resampling (exact identity queries); CrossHair symbolic execution (z3) of the real dictionary utilities over symbolic keys and separators; enumerated attribute/dataset round trips',
-              text='pack/unpack, stack/unstack, split/concat, split_axis and spectral up/down-sampling are exact identities for ALL leaf values on enumerated tree shapes (up-sampling tied to the analytic basis); flatten/unflatten explored by CrossHair per tree shape with symbolic keys (<= 2 chars) and separator within a time budget, counterexamples replayed; coordinate-system attrs and dataset dimension names on enumerated configurations.',
+              text='pack/unpack, stack/unstack, split/concat, split_axis and spectral up/down-sampling are exact identities for ALL leaf values on enumerated tree shapes (up-sampling tied to the analytic basis); coordinate-system attrs round trip CONFIRMED OVER ALL PATHS by CrossHair for symbolic grid sizes / spacing / offset / radius / layer count (both implementations); flatten/unflatten explored by CrossHair per tree shape with symbolic keys (<= 2 chars) and separator within a time budget, counterexamples replayed; dataset dimension names on enumerated configurations.',
               design='§3 C19'),
   'C07': dict(category='other', technique='lock-step symbolic execution of the traced shard_map programs over all devices of real CPU meshes (collectives implemented across per-device environments) + QF_LRA / monomial-abstraction equivalence queries against the unsharded program',
               text='For ALL inputs: sharded transforms, longitude derivative, spectral operators, filters, sharded_einsum (gather/scatter strategies, both argument orders), parallel cumulative sums, vertical padding, primitive-equation implicit/explicit operators equal the single-device results after cropping, on meshes with axis sizes 1,2,4,6 (<= 8 devices) and padded layouts; no non-finite constant reaches the IR.',
               design='§3 C07'),
-  'C08': dict(category='other', technique='symbolic execution of the jaxprs of jax.jvp / jax.vjp of the real functions (polynomial normal forms) + exact symbolic differentiation of the primal normal form + QF_LRA monomial-abstraction queries',
-              text='For ALL admissible states, tangents and cotangents: forward mode equals the exact derivative of the primal, reverse mode is the adjoint of forward mode, and no non-finite constant or undefined operation is reachable in the derivative programs: transforms and spectral operators, filters, dry primitive-equation explicit/implicit terms and a filtered Euler step, shallow-water steps, on plain and padded layouts.',
+  'C08': dict(category='other', technique='symbolic execution of the jaxprs of jax.jvp / jax.vjp of the real functions (polynomial normal forms with atoms; z3 ite-terms for kinked functions) + exact symbolic differentiation of the primal normal form + QF_LRA monomial-abstraction / QF_NRA queries; definedness hazards settled by QF_NRA witness + replay',
+              text='For ALL admissible states, tangents and cotangents: forward mode equals the exact derivative of the primal (chain rule through exp/log/pow/reciprocal atoms), reverse mode is the adjoint of forward mode, and no undefined operation is reachable in the derivative programs (an operation on the edge of its domain is settled by a solver witness replayed on the real jax.jvp/jax.vjp): transforms and spectral operators, filters, dry and moist primitive-equation explicit/implicit terms and a filtered Euler step, shallow-water steps, Held-Suarez forcing, plain and padded layouts; kinks (vertical interpolation routines, upwind advection) decided in the term domain for every branch: derivative of the documented formula off the kink, central-difference limit at the kink, adjointness everywhere.',
               design='§3 C08'),
   'C13': dict(category='other', technique='symbolic execution of the traced jaxpr + QF_LRA queries (monomial abstraction for bilinear clauses)',
               text='Bounded symbolic verification of the sigma calculus identities for ALL column data and vertical velocities on each enumerated level set (even, dyadic uneven, seeded random), axis and shape.',
